@@ -62,8 +62,24 @@ func renderL(l *list.List) []string {
 	for e := l.Front(); e != nil; e = e.Next() {
 		out = append(out, renderH(e.Value.(*HolidayUtil.Holiday)))
 	}
+	// the caller owns what it was given: scribble over every second result (records and list); later queries
+	// must not see any of it
+	scribble++
+	if scribble%2 == 0 {
+		for e := l.Front(); e != nil; e = e.Next() {
+			h := e.Value.(*HolidayUtil.Holiday)
+			h.SetName("×")
+			h.SetWork(!h.IsWork())
+			h.SetTarget("1999-09-09")
+			h.SetDay("1999-09-09")
+		}
+		l.Init()
+		probesC["results_mutated_by_caller"]++
+	}
 	return out
 }
+
+var scribble int
 
 func dash(s string) string   { return s[0:4] + "-" + s[4:6] + "-" + s[6:8] }
 func undash(s string) string { return strings.Replace(s, "-", "", -1) }
